@@ -457,14 +457,188 @@ mod signals {
 	}
 }
 
+mod paths {
+	use super::*;
+	use std::path::PathBuf;
+	use watchexec::paths::summarise_events_to_env;
+	use watchexec_cli::verif::{emits_to_environment, events_to_simple_format};
+	use watchexec_events::{
+		filekind::{AccessKind, AccessMode, CreateKind, DataChange, FileEventKind, MetadataKind, ModifyKind, RemoveKind, RenameMode},
+		Event, FileType, Tag,
+	};
+
+	fn kind_of(class: &str) -> FileEventKind {
+		match class {
+			"WRITTEN" => FileEventKind::Modify(ModifyKind::Data(DataChange::Content)),
+			"META_CHANGED" => FileEventKind::Modify(ModifyKind::Metadata(MetadataKind::Permissions)),
+			"REMOVED" => FileEventKind::Remove(RemoveKind::File),
+			"CREATED" => FileEventKind::Create(CreateKind::File),
+			"RENAMED" => FileEventKind::Modify(ModifyKind::Name(RenameMode::Both)),
+			"WRITTEN_BY_CLOSE" => FileEventKind::Access(AccessKind::Close(AccessMode::Write)),
+			"OTHERWISE_ACCESS" => FileEventKind::Access(AccessKind::Open(AccessMode::Read)),
+			_ => FileEventKind::Other,
+		}
+	}
+
+	pub fn run(case: &Value) -> Value {
+		let mut events = Vec::new();
+		for e in case["batch"].as_array().unwrap() {
+			let mut tags = Vec::new();
+			for k in e["kinds"].as_array().unwrap() {
+				tags.push(Tag::FileEventKind(kind_of(k.as_str().unwrap())));
+			}
+			for p in e["paths"].as_array().unwrap() {
+				let mut path = PathBuf::from("/");
+				for c in p["comps"].as_array().unwrap() {
+					path.push(c.as_str().unwrap());
+				}
+				tags.push(Tag::Path {
+					path,
+					file_type: Some(if p["dir"].as_bool().unwrap() { FileType::Dir } else { FileType::File }),
+				});
+			}
+			events.push(Event { tags, metadata: Default::default() });
+		}
+		let mut lib = serde_json::Map::new();
+		for (k, v) in summarise_events_to_env(events.iter()) {
+			lib.insert(k.to_string(), json!(v.to_string_lossy()));
+		}
+		let mut cli = serde_json::Map::new();
+		for var in emits_to_environment(&events) {
+			let k = var.key.strip_prefix("WATCHEXEC_").and_then(|k| k.strip_suffix("_PATH")).unwrap_or(&var.key).to_string();
+			cli.insert(k, json!(var.value.to_string_lossy()));
+		}
+		let lines: Vec<String> = match events_to_simple_format(&events) {
+			Ok(s) => s.lines().map(str::to_string).collect(),
+			Err(e) => return json!({"error": e.to_string()}),
+		};
+		json!({"lib": lib, "cli": cli, "lines": lines})
+	}
+}
+
+mod eventjson {
+	use super::*;
+	use rand::{rngs::StdRng, Rng, SeedableRng};
+	use watchexec_events::Event;
+
+	/// Concrete leaves for one variant of a shape.
+	fn binds(variant: usize, rng: &mut StdRng) -> serde_json::Map<String, Value> {
+		let paths = ["/", "/tmp/x", "/with space/and \"quote\"", "/ünï/cødé/\u{1F980}", "relative/path", "/a/./b/../c", "/nl\nin/name"];
+		let pids: [u32; 5] = [0, 1, 42, u32::MAX - 1, u32::MAX];
+		let c32: [i64; 6] = [1, -1, 255, i32::MAX as i64, i32::MIN as i64, 77];
+		let c64: [i64; 6] = [1 << 40, -(1 << 40), i64::MAX, i64::MIN, (i32::MAX as i64) + 1, (i32::MIN as i64) - 1];
+		let sig: [i64; 5] = [34, 64, 0, -3, 1000];
+		let mut m = serde_json::Map::new();
+		let pick = |n: usize, rng: &mut StdRng| if variant < n { variant } else { rng.gen_range(0..n) };
+		m.insert("$path".into(), json!(paths[pick(paths.len(), rng)]));
+		m.insert("$pid".into(), json!(pids[pick(pids.len(), rng)]));
+		m.insert("$code32".into(), json!(c32[pick(c32.len(), rng)]));
+		m.insert("$code64".into(), json!(c64[pick(c64.len(), rng)]));
+		m.insert("$signum".into(), json!(sig[pick(sig.len(), rng)]));
+		m
+	}
+
+	fn build(doc: &Value, bind: &serde_json::Map<String, Value>) -> Value {
+		let mut o = serde_json::Map::new();
+		for (k, v) in doc.as_object().unwrap() {
+			let v = v.as_str().unwrap();
+			if v == "-" {
+				continue;
+			}
+			let val = if let Some(b) = bind.get(v) {
+				b.clone()
+			} else if v == "0" {
+				json!(0)
+			} else {
+				json!(v)
+			};
+			o.insert(k.clone(), val);
+		}
+		Value::Object(o)
+	}
+
+	fn tag_roundtrip(obj: &Value) -> Result<(Value, bool), String> {
+		// an event holding exactly this tag, parsed by the real deserialiser
+		let ev_json = json!({"tags": [obj]});
+		let ev: Event = serde_json::from_value(ev_json).map_err(|e| e.to_string())?;
+		let back = serde_json::to_value(&ev).map_err(|e| e.to_string())?;
+		let again: Event = serde_json::from_value(back.clone()).map_err(|e| e.to_string())?;
+		let tag = back["tags"].get(0).cloned().unwrap_or(Value::Null);
+		Ok((tag, again == ev))
+	}
+
+	pub fn run(case: &Value) -> Value {
+		let seed = case["case"].as_u64().unwrap_or(0);
+		let mut rng = StdRng::seed_from_u64(seed ^ 0x5eed);
+		if case.get("shape").is_some() {
+			let mut variants = Vec::new();
+			for v in 0..8 {
+				let bind = binds(v, &mut rng);
+				let obj = build(&case["doc"], &bind);
+				match tag_roundtrip(&obj) {
+					Ok((tag, rt)) => variants.push(json!({"json": tag, "roundtrip": rt, "bind": bind})),
+					Err(e) => return json!({"error": format!("{e} on {obj}")}),
+				}
+			}
+			// events of several tags of this shape mixed with others, with metadata
+			let mut events_ok = true;
+			let mut events_bad = Value::Null;
+			for n in 0..5usize {
+				let bind = binds(100, &mut rng);
+				let obj = build(&case["doc"], &bind);
+				let mut tags = Vec::new();
+				for i in 0..n {
+					tags.push(if i % 2 == 0 { obj.clone() } else { json!({"kind": "source", "source": "os"}) });
+				}
+				let mut ev = serde_json::Map::new();
+				if !tags.is_empty() {
+					ev.insert("tags".into(), json!(tags));
+				}
+				if n % 2 == 1 {
+					ev.insert("metadata".into(), json!({"k\u{e9}y": ["v1", ""], "": ["x"]}));
+				}
+				let evj = Value::Object(ev);
+				let ok = serde_json::from_value::<Event>(evj.clone())
+					.ok()
+					.and_then(|e| serde_json::to_value(&e).ok().map(|j| (e, j)))
+					.map_or(false, |(e, j)| j == evj && serde_json::from_value::<Event>(j).map_or(false, |b| b == e));
+				if !ok {
+					events_ok = false;
+					events_bad = evj;
+				}
+			}
+			json!({"variants": variants, "events_ok": events_ok, "events_bad": events_bad})
+		} else {
+			let bind = binds(100, &mut rng);
+			let obj = build(&case["obj"], &bind);
+			match tag_roundtrip(&obj) {
+				Ok((tag, _)) => json!({"json": tag, "bind": bind, "input": obj}),
+				Err(e) => json!({"error": format!("{e} on {obj}")}),
+			}
+		}
+	}
+}
+
 fn main() {
 	let args: Vec<String> = std::env::args().collect();
 	let kind = args[1].clone();
 	let cases_path = &args[2];
 	let out_path = &args[3];
 	let mut threads = 12usize;
-	if args.len() > 5 && args[4] == "--threads" {
-		threads = args[5].parse().unwrap();
+	// --incremental FROM: one thread, results appended and flushed case by case starting at case
+	// FROM, so that an abort of the code under test can be pinned on the case that caused it
+	let mut incremental: Option<usize> = None;
+	let mut i = 4;
+	while i + 1 < args.len() {
+		match args[i].as_str() {
+			"--threads" => threads = args[i + 1].parse().unwrap(),
+			"--incremental" => {
+				incremental = Some(args[i + 1].parse().unwrap());
+				threads = 1;
+			}
+			_ => {}
+		}
+		i += 2;
 	}
 	let scratch = std::path::Path::new(out_path)
 		.parent()
@@ -484,8 +658,13 @@ fn main() {
 		.map(|l| serde_json::from_str(&l).expect("case json"))
 		.collect();
 	let cases = Arc::new(cases);
-	let next = Arc::new(AtomicUsize::new(0));
+	let next = Arc::new(AtomicUsize::new(incremental.unwrap_or(0)));
 	let results: Arc<Mutex<Vec<(usize, Value)>>> = Arc::new(Mutex::new(Vec::new()));
+	let inc_out = incremental.map(|_| {
+		Arc::new(Mutex::new(
+			std::fs::OpenOptions::new().create(true).append(true).open(out_path).unwrap(),
+		))
+	});
 
 	let mut handles = Vec::new();
 	for _ in 0..threads {
@@ -496,6 +675,7 @@ fn main() {
 			kind.clone(),
 			scratch.clone(),
 		);
+		let inc_out = inc_out.clone();
 		handles.push(std::thread::spawn(move || {
 			let rt = tokio::runtime::Builder::new_current_thread()
 				.enable_all()
@@ -515,18 +695,31 @@ fn main() {
 							"ignore" => ignore::run(case, &scratch).await,
 							"cliflags" => cliflags::run(case, &scratch).await,
 							"signals" => signals::run(case),
+							"paths" => paths::run(case),
+							"eventjson" => eventjson::run(case),
 							other => panic!("unknown kind {other}"),
 						}
 					})
 				}))
 				.unwrap_or_else(|_| json!({"panic": true}));
-				local.push((i, json!({"case": case["case"], "got": got})));
+				if let Some(out) = &inc_out {
+					let mut out = out.lock().unwrap();
+					serde_json::to_writer(&mut *out, &json!({"case": case["case"], "got": got})).unwrap();
+					out.write_all(b"\n").unwrap();
+					out.flush().unwrap();
+				} else {
+					local.push((i, json!({"case": case["case"], "got": got})));
+				}
 			}
 			results.lock().unwrap().extend(local);
 		}));
 	}
 	for h in handles {
 		h.join().unwrap();
+	}
+	if incremental.is_some() {
+		let _ = std::fs::remove_dir_all(&scratch);
+		return;
 	}
 	let mut results = std::mem::take(&mut *results.lock().unwrap());
 	results.sort_by_key(|(i, _)| *i);
